@@ -323,6 +323,43 @@ class SlowPeerSock:
         self.sendall(data)
         return len(data)
 
+    # the read direction: now and then nothing arrives for longer than ANY finite limit configured for reads (a quiet
+    # connection, a peer pausing in the middle of a frame). Without a limit the read simply takes that long (modelled by
+    # a normal read); with one the call fails the way the socket module would fail it, and the bytes arrive afterwards
+    def _read_limit(self):
+        import socket
+        import struct
+
+        if self._s.gettimeout() is not None:
+            return "timeout"
+        try:
+            tv = self._s.getsockopt(socket.SOL_SOCKET, socket.SO_RCVTIMEO, 16)
+            if any(struct.unpack("ll", tv[:16])):
+                return "rcvtimeo"
+        except OSError:
+            pass
+        return None
+
+    def _quiet(self):
+        if self._rng.random() < self._p / 4:
+            self.quiet_periods += 1
+            lim = self._read_limit()
+            if lim is not None:
+                self.limits_seen += 1
+                if lim == "timeout":
+                    raise TimeoutError("timed out")
+                raise BlockingIOError(11, "Resource temporarily unavailable")
+
+    quiet_periods = 0
+
+    def recv(self, n):
+        self._quiet()
+        return self._s.recv(n)
+
+    def recv_into(self, buf, nbytes=0):
+        self._quiet()
+        return self._s.recv_into(buf, nbytes)
+
 
 def run_slowpeer(spec):
     """socket connection, a peer that is slow beyond every configured limit: each message whose write returned normally
@@ -335,10 +372,48 @@ def run_slowpeer(spec):
     res = Result()
     rng = core.rng_for("C08s", spec["tier"], spec["seed"], spec["shard"])
     em = gb.get_execmodel("thread")
+    import execnet
+
     for run in range(spec["runs"]):
-        a, b = socket.socketpair()
-        slow = SlowPeerSock(a, rng, rng.choice((0.1, 0.3, 0.6)))
-        io = gs.SocketIO(slow, em)
+        if run % 2:
+            a, b = socket.socketpair()
+            slow = SlowPeerSock(a, rng, rng.choice((0.1, 0.3, 0.6)))
+            io = gs.SocketIO(slow, em)
+        else:
+            # the connection as the initiating side of a socket gateway sets it up (connect to a listening server)
+            srv = socket.socket(socket.AF_INET, socket.SOCK_STREAM)
+            srv.bind(("127.0.0.1", 0))
+            srv.listen(1)
+            io = gs.create_io(execnet.XSpec("socket=127.0.0.1:%d" % srv.getsockname()[1]), None, em)
+            b, _addr = srv.accept()
+            srv.close()
+            a = io.sock
+            slow = SlowPeerSock(a, rng, rng.choice((0.1, 0.3, 0.6)))
+            io.sock = slow
+            res.count("slow_peer_runs_on_a_connection_made_by_create_io")
+        # the read direction first: the peer writes frames, pausing now and then; all of them are decoded
+        rframes = [(gb.Message.CHANNEL_DATA, rng.choice((1, 3, -5)), make_payload(b"<r:%d>" % k, rng.choice((0, 1, 100, 5000, 70000)))) for k in range(rng.choice((1, 3, 6)))]
+        wire = b"".join(codec.frame(c, i, p_) for c, i, p_ in rframes)
+        wt = threading.Thread(target=lambda: b.sendall(wire), daemon=True)
+        wt.start()
+        decoded = []
+        try:
+            for _ in rframes:
+                msg = gb.Message.from_io(io)
+                decoded.append((msg.msgcode, msg.channelid, msg.data))
+        except EOFError as e:
+            decoded.append(f"EOFError: {e}")
+        except BaseException as e:  # noqa
+            decoded.append(f"{type(e).__name__}: {e}")
+        wt.join(20)
+        res.count("frames_read_over_a_connection_with_quiet_periods", len(rframes))
+        res.count("quiet_periods", slow.quiet_periods)
+        if decoded != rframes:
+            res.violation("frames-lost-after-quiet-period:socket",
+                          f"peer wrote {[(c, i, len(p_)) for c, i, p_ in rframes]} with {slow.quiet_periods} quiet periods; decoded {[(d[0], d[1], len(d[2])) if isinstance(d, tuple) else d for d in decoded]}")
+            a.close()
+            b.close()
+            continue
         chunks: list[bytes] = []
 
         def reader():
